@@ -2155,7 +2155,13 @@ static Boolean SymbolAdder(PTree* PDest, PTree Neu, void* pData) {
                             &(*Node)->SymWert.Contents.str)))
                 || ((NewEntry->SymWert.Typ == TempFloat)
                     && (NewEntry->SymWert.Contents.Float
-                        != (*Node)->SymWert.Contents.Float))
+                        != (*Node)->SymWert.Contents.Float)
+                    /* NaN never equals itself: no phase error, else no pass is
+                       ever the last one */
+                    && !((NewEntry->SymWert.Contents.Float
+                          != NewEntry->SymWert.Contents.Float)
+                         && ((*Node)->SymWert.Contents.Float
+                             != (*Node)->SymWert.Contents.Float)))
                 || ((NewEntry->SymWert.Typ == TempInt)
                     && (NewEntry->SymWert.Contents.Int
                         != (*Node)->SymWert.Contents.Int))) {
